@@ -217,8 +217,8 @@ func runExec(e *Exec, bodies []func()) Result {
 	go func() { e.live.Wait(); close(gone) }()
 	select {
 	case <-gone:
-	case <-time.After(5 * time.Second):
-		e.res.Diverged = "threads of an aborted execution did not exit within 5 s"
+	case <-time.After(120 * time.Second):
+		e.res.Diverged = "threads of an aborted execution did not exit within 120 s"
 	}
 	for i, t := range e.threads {
 		e.res.Panics[i] = t.panicV
